@@ -73,10 +73,10 @@ let show_ev = function
   | EFrrReload -> "F:reload"
 let csv_nats (s : string) : nat list =
   if s = "-" then [] else List.map (fun x -> nat_of_int (int_of_string x)) (String.split_on_char ',' s)
-let kind_of = function "I" -> KInt | "U" -> KU32 | "S" -> KStr | "B" -> KBool | "N" -> KInternal | _ -> failwith "kind"
+let kind_of = function "A" -> KAny | "I" -> KInt | "U" -> KU32 | "S" -> KStr | "B" -> KBool | "N" -> KInternal | _ -> failwith "kind"
 (* concurrent mode: search for a sequential order of the threads' operations that explains every
    observed result and the final state (linearizability w.r.t. the model) *)
-let run_conc (var : variant) reg g (f : string array) (p0 : int) (impl : string) : string =
+let run_conc (var : variant) reg g init_store (f : string array) (p0 : int) (impl : string) : string =
   if p0 + 1 >= Array.length f || f.(p0) <> "threads" then "badline" else begin
     let nt = int_of_string f.(p0 + 1) in
     let scripts = Array.make nt [] in
@@ -155,7 +155,7 @@ let run_conc (var : variant) reg g (f : string array) (p0 : int) (impl : string)
             done;
             !found
           end in
-        if go (init_state empty_store) (Array.make nt 0) (Array.make nt N0) [] then impl
+        if go (init_state init_store) (Array.make nt 0) (Array.make nt N0) [] then impl
         else if !budget < 0 then "SEARCH-BUDGET-EXHAUSTED"
         else "NOT-LINEARIZABLE"
       end
@@ -183,10 +183,28 @@ let run_case (var : variant) (line0 : string) (impl : string) : string =
         let cp = [intern "interfaces"; intern ifn] in
         Some ((cp, cp @ [intern "mtu"]), z_of_string (string_of_int (mru + 12)))
       end else None in
-    if conc then run_conc var reg g f !p impl else
+    let init_store =
+      if !p < Array.length f && f.(!p) = "plugin" then begin
+        let msg = (match value_of_token f.(!p + 2) with VStr l -> l | _ -> []) and lim = z_of_string f.(!p + 3) in
+        p := !p + 4;
+        let str s = List.init (String.length s) (fun i -> n_of_int (Char.code s.[i])) in
+        let ps = path_of_string in
+        { leaves = [ (ps "interfaces.eth0.name", SStr (str "eth0"));
+                     (ps "interfaces.eth0.description", SStr (str "Management Interface"));
+                     (ps "interfaces.eth0.enabled", SBool true) ]
+                   @ (if msg = [] then [] else [ (ps "verif.c13.message", SStr msg) ])
+                   @ (if lim = Z0 then [] else [ (ps "verif.c13.limit", SInt lim) ]);
+          conts = [ ps "interfaces"; ps "interfaces.eth0"; ps "verif.c13" ] }
+      end else empty_store in
+    if conc then begin
+      let reps = Str.split (Str.regexp_string " || ") impl in
+      let outs = List.map (fun r -> run_conc var reg g init_store f !p r) reps in
+      if reps <> [] && List.for_all2 (fun a b -> a = b) reps outs then impl
+      else (try List.find (fun o -> o = "NOT-LINEARIZABLE") outs with Not_found -> String.concat " || " outs)
+    end else
     if !p >= Array.length f || f.(!p) <> "ops" then "badline" else begin
       incr p;
-      let st = ref (init_state empty_store) in
+      let st = ref (init_state init_store) in
       let prev = ref (snapshot !st) in
       let out = ref [] in
       let sid t = if t = "@" then (match !st.lock with Some o -> o | None -> !st.next_id) else n_of_decimal t in
